@@ -16,9 +16,17 @@ func New[K comparable, V any]() *SyncMap[K, V] {
 	}
 }
 
+// Keys iterates over the keys present when the iteration starts. The snapshot is taken under the lock
+// and the loop body runs without it, so the body may call Set and Delete.
 func (s *SyncMap[K, V]) Keys() iter.Seq[K] {
 	return func(yield func(K) bool) {
+		s.mu.RLock()
+		keys := make([]K, 0, len(s.ma))
 		for k := range s.ma {
+			keys = append(keys, k)
+		}
+		s.mu.RUnlock()
+		for _, k := range keys {
 			if !yield(k) {
 				return
 			}
@@ -26,9 +34,16 @@ func (s *SyncMap[K, V]) Keys() iter.Seq[K] {
 	}
 }
 
+// Items iterates over the values present when the iteration starts (see Keys).
 func (s *SyncMap[K, V]) Items() iter.Seq[V] {
 	return func(yield func(V) bool) {
+		s.mu.RLock()
+		items := make([]V, 0, len(s.ma))
 		for _, v := range s.ma {
+			items = append(items, v)
+		}
+		s.mu.RUnlock()
+		for _, v := range items {
 			if !yield(v) {
 				return
 			}
